@@ -31,7 +31,7 @@ func announceFailsCause(cause string) bool {
 	return cause == "announce-rejected" || cause == "announce-lost" || cause == "dump-unsendable"
 }
 
-var stopCauses = []string{"eof", "err", "close", "reset", "short", "outofseq", "cancel-idle", "cancel-handler", "handler-err", "handler-err-cancel", "invalid", "unsupported", "unknown-table", "mapper-err", "connect-fail", "announce-rejected", "announce-lost", "dump-unsendable", "foreign-packet"}
+var stopCauses = []string{"eof", "err", "close", "reset", "short", "outofseq", "cancel-idle", "cancel-handler", "handler-err", "handler-err-cancel", "invalid", "unsupported", "unknown-table", "mapper-err", "connect-fail", "announce-rejected", "announce-lost", "dump-unsendable", "foreign-packet", "cancel-during-announce"}
 
 // runTermination covers C05 (termination, nothing left behind, Error() never blocks, handler scope) and
 // C06 (the reason is reported): every stop cause x stop point x reader blocking state x handler speed.
@@ -100,6 +100,13 @@ func runStopScenario(c *Ctx, prop string, h *history, evs [][]byte, idx []int, f
 			// lock-step: the terminal action happens only after the parser consumed everything
 			a.holdAfter = cutAfterTx(sc.atTx - 1)
 		}
+	case "cancel-during-announce":
+		// the cancellation falls inside the connection set-up: the master has received the checksum announcement and
+		// answers it 250 ms later.  Whatever Stream does with the half-made connection, once it has returned nothing of
+		// it may be left: no goroutine, no open socket at the master.
+		a.events = evs[:cut]
+		a.terminal = "eof"
+		a.cancelOnAnnounce = true
 	case "cancel-idle":
 		a.events = evs[:cut]
 		a.cancelWhenIdle = true
@@ -365,6 +372,9 @@ func runStopScenario(c *Ctx, prop string, h *history, evs [][]byte, idx []int, f
 			}
 		}
 		c.R.Dist["protocol_model_sets_checked"]++
+		if sc.cause == "cancel-during-announce" {
+			admitted = true // the protocol model has no step inside the connection set-up; the specification checks below apply
+		}
 		if !admitted && set.Nth(0).Atom == "ok" {
 			c.R.Add(vh.Mismatch{Kind: "corr", What: "the observed end of the stream is not an outcome the protocol model admits (" + sc.cause + ")", Case: desc + " request=" + vh.Sprintf("%.300s", req.String()),
 				Model: vh.Sprintf("%.600s", set.String()), Impl: strings.Join(obs, " "), InDomain: true})
@@ -408,7 +418,7 @@ func runStopScenario(c *Ctx, prop string, h *history, evs [][]byte, idx []int, f
 	}
 	if res.streamErr == nil && reason == "nil" {
 		switch sc.cause {
-		case "eof", "cancel-idle", "cancel-handler":
+		case "eof", "cancel-idle", "cancel-handler", "cancel-during-announce":
 		default:
 			what := "reporting: Stream returned nil and Error() returned nil although the stream ended by " + sc.cause
 			if sc.cancelBeforeError {
@@ -493,6 +503,16 @@ func runC07(c *Ctx) {
 			if att < natt && len(evs) > 3 {
 				a.events = evs[:2+r.Intn(len(evs)-2)]
 				a.terminal = r.PickS("close", "eof", "err", "reset")
+			}
+			// the master may refuse the dump request outright: its first and only answer is an ERR packet (1236: the
+			// requested file or offset is gone; 1045 / 1227: not allowed) or EOF.  Still one request per attempt.
+			if q := r.Side(); att < natt && (q.Chance(1, 4) || (k < 4 && att == 0)) {
+				a.events = nil
+				a.terminal = "err"
+				a.errCode, a.errMsg = uint16(q.Pick(1236, 1236, 1236, 1045, 1227, 1105)), "Could not find first log file name in binary log index file"
+				if k >= 4 && q.Chance(1, 4) {
+					a.terminal = "eof"
+				}
 			}
 			// the kind of context the caller passes must not change the request: plain cancel, or with a deadline
 			a.deadlineCtx = r.Side().Chance(1, 2)
